@@ -1,6 +1,6 @@
 (* C20 -- finite-difference calculus on compressed tensors matches the dense stencil.  Statements only.
    Model: Model/Deriv.v (one linear map on the differentiated mode). *)
-From TN Require Import Proofs.DerivP Alg.Inst.
+From TN Require Import Proofs.DerivP Proofs.ArithP Proofs.SumNetsP Proofs.DerivSumP Alg.Inst.
 
 Section C20.
 Variable K : Ops.
@@ -31,9 +31,24 @@ Proof. exact (stencil_np_const K Kth). Qed.
 Theorem C20_affine_to_constant : forall n i (a b : K), (3 <= n)%nat -> (i < n)%nat ->
   sumn n (fun j => stencil_np n i j * (a + b * of_nat j)) = two * b.
 Proof. exact (stencil_np_affine K Kth). Qed.
+
+(* laplacian(t) = sum([partial(t, n, order=2) ...]) and divergence(ts) = sum([partial(ts[n], n) ...]): Python's sum of
+   well-formed, equally shaped tensors decompresses to the entrywise sum of the summands ... *)
+Theorem C20_sum_of_partials : forall (l : list (list (score K))) (r : list (score K)) sh,
+  Forall (fun x => good K x /\ sshape x = sh) l -> py_sum K l = Some r ->
+  good K r /\ sshape r = sh /\ forall idx, in_range sh idx = true -> eval r idx = sum_evals K l idx.
+Proof. exact (py_sum_sound K Kth). Qed.
+(* ... and partial derivatives of any order are such summands: well-formed, shape unchanged *)
+Theorem C20_partial_shape : forall (order k n : nat) hinv periodic (cs : list (score K)) c,
+  nth_error cs k = Some c -> dm c = n -> good K cs ->
+  good K (partial_net order k n hinv periodic cs) /\ sshape (partial_net order k n hinv periodic cs) = sshape cs /\
+  exists c', nth_error (partial_net order k n hinv periodic cs) k = Some c' /\ dm c' = n.
+Proof. exact (partial_good K). Qed.
 End C20.
 
 Print Assumptions C20_partial.
 Print Assumptions C20_stencil.
 Print Assumptions C20_constants_annihilated.
 Print Assumptions C20_affine_to_constant.
+Print Assumptions C20_sum_of_partials.
+Print Assumptions C20_partial_shape.
